@@ -26,10 +26,11 @@ OBLIGATIONS = ["NiftyVerif.C31." + t for t in (
     "ravelSerial_lt", "flat_roundtrip_serial", "flat_roundtrip_serial_inv",
     "flat_parent_commutes", "flat_children_commute", "flat_parent_commutes_serial",
     "flat_roundtrip_nest", "nest_bound_is_shape", "flat_parent_commutes_nest",
-    "coord_roundtrip", "coord_roundtrip_rint", "volume_conserved_axis", "volume_conserved",
+    "coord_roundtrip", "coord_roundtrip_rint", "volume_conserved_axis", "volume_conserved", "edges_refine",
+    "simple_coord_roundtrip",
     "neighbourhood_in_range", "neighbourhood_centre", "neighbourhood_wraps", "open_neighbourhood_eq")]
 RULE = ("grid specifications (regular 1-3 D, open with per-level padding, HEALPix nside<=4, MGrid products, FlatGrid "
-        "serial/nest) generated with depth<=3 and at most ~600 (quick) / ~4000 (thorough) pixels on the finest level; every "
+        "serial/nest, SimpleOpenGrid / LogGrid / BrokenLogGrid) generated with depth<=3 and at most ~600 (quick) / ~4000 (thorough) pixels on the finest level; every "
         "index of every level is evaluated; non-trivial = depth>=1 and some split>1; distinct by the canonical spec")
 TRUSTED_BASE = ["Lean 4.33 kernel; axioms propext/Classical.choice/Quot.sound only (audited every run)",
                 "Model/Grid.lean is hand-written from grid.py/grid_impl.py; tied by exhaustive per-level differential "
@@ -73,14 +74,32 @@ def build(spec):
         return MGrid(*[build(g) for g in spec["grids"]])
     if k == "flat":
         return FlatGrid(build(spec["grid"]), ordering=spec["ordering"])
+    if k in PHYS_KINDS:
+        from nifty.re.multi_grid.grid_impl import BrokenLogGrid, LogGrid, SimpleOpenGrid
+        kw = dict(min_shape=tuple(spec["min_shape"]), window_size=spec.get("window", 3), splits=spec.get("splits", 2),
+                  depth=spec["depth"])
+        if k == "simpleopen":
+            return SimpleOpenGrid(distances=spec.get("distances"), **kw)
+        if k == "log":
+            return LogGrid(r_min=spec["r_min"], r_max=spec["r_max"], **kw)
+        return BrokenLogGrid(r_min=spec["r_min"], r_linthresh=spec["r_linthresh"], r_max=spec["r_max"], **kw)
     raise ValueError(k)
+
+
+PHYS_KINDS = ("simpleopen", "log", "brokenlog")
+
+
+def derive_open(spec, grid):
+    """the OpenGrid a SimpleOpenGrid / LogGrid / BrokenLogGrid really is (its index maps are those of an OpenGrid)"""
+    return dict(kind="open", phys=spec["kind"], shape0=[int(x) for x in grid.shape0],
+                splits=[[int(x) for x in s_] for s_ in grid.splits], padding=[[int(x) for x in p] for p in grid.padding])
 
 
 def depth_of(spec):
     k = spec["kind"]
     if k in ("regular", "open"):
         return len(spec["splits"])
-    if k == "hp":
+    if k == "hp" or k in PHYS_KINDS:
         return spec["depth"]
     if k == "mgrid":
         return depth_of(spec["grids"][0])
@@ -111,6 +130,11 @@ def leaf_axes(leaf, level, at):
                         pad=pads[level][k] if level < d else 0, ppad=pads[level - 1][k] if level > 0 else 0,
                         sh=at[level]["shifts"][k], hp=False))
     return out
+
+
+def _fs(x):
+    f = Fraction(float(x))
+    return str(f.numerator) if f.denominator == 1 else f"{f.numerator}/{f.denominator}"
 
 
 def _strip(ax):
@@ -285,19 +309,26 @@ def compare_level(ctx, spec, level, real, model):
     if "rt" not in ri[0]:
         for it in disc_m:
             it.pop("rt", None)
-    ok = ctx.compare(dict(spec=spec, level=level), dict(items=disc_r, refinedIndices=real["refinedIndices"]),
+    ok = ctx.compare(dict(spec={k: v for k, v in spec.items() if not k.startswith("_")}, level=level), dict(items=disc_r, refinedIndices=real["refinedIndices"]),
                      dict(items=disc_m, refinedIndices=model["refinedIndices"]),
                      note=f"C31 level {level}: children/parent/refined/neighbourhood/coordinate round trip, real vs model",
                      nontrivial=depth_of(spec) >= 1)
     if not ok:
         return
-    if "coord" in ri[0]:
+    phys = spec.get("phys")
+    if "coord" in ri[0] and phys != "brokenlog":
         for a, b in zip(ri, mi):
             for x, y in zip(a["coord"], b["coord"]):
                 ym = float(_frac(y))
-                if abs(x - ym) > TOL * (abs(ym) + 1):
-                    ctx.disagree(dict(spec=spec, level=level, i=a["i"]), x, y, "C31 index2coord (class T)")
+                if phys == "log":
+                    # radial map exp(scale * c + offset): compare in the exponent
+                    x, ym = float(np.log(x)), spec["_scale"] * ym + spec["_offset"]
+                if abs(x - ym) > (1e-10 if phys == "log" else TOL) * (abs(ym) + 1):
+                    ctx.disagree(dict(spec={k: v for k, v in spec.items() if not k.startswith("_")}, level=level, i=a["i"]), x, y,
+                                 "C31 index2coord (class T)")
                     return
+    if phys in ("log", "brokenlog"):
+        return                      # pixel volumes of radial grids: oracle (never more than the parent), not the model
     # HEALPix product grids have surface 4 pi per sphere factor: the model volume is per unit factor
     nhp = sum(1 for lf in leaves(spec if spec["kind"] != "flat" else spec["grid"]) if lf["kind"] == "hp")
     vm = float(_frac(model["volume"])) * (4 * np.pi) ** nhp
@@ -466,7 +497,9 @@ def gen_open(rng, depth, maxsize):
 def gen_spec(rng, quick):
     maxsize = 200 if quick else 1500
     depth = rng.choice([0, 1, 1, 2, 2, 3]) if quick else rng.choice([0, 1, 2, 2, 3, 3])
-    kind = rng.choice(["regular", "open", "open", "hp", "mgrid", "mgrid", "flat", "flat", "flat"])
+    kind = rng.choice(["regular", "open", "open", "hp", "mgrid", "mgrid", "flat", "flat", "flat", "phys", "phys"])
+    if kind == "phys":
+        return gen_phys(rng, min(depth, 2))
     if kind == "regular":
         return gen_regular(rng, depth, maxsize)
     if kind == "open":
@@ -508,6 +541,21 @@ def gen_spec(rng, quick):
     return dict(kind="flat", ordering=ordering, grid=g)
 
 
+def gen_phys(rng, depth):
+    k = rng.choice(PHYS_KINDS)
+    if k == "simpleopen":
+        nd = rng.choice([1, 1, 2])
+        sp = dict(kind=k, min_shape=[rng.randrange(3, 7) for _ in range(nd)], depth=depth, window=rng.choice([3, 3, 5]),
+                  splits=rng.choice([2, 2, 3]))
+        sp["distances"] = rng.choice([None, [rng.choice([0.5, 0.25, 1.5]) for _ in range(nd)]])
+        return sp
+    sp = dict(kind=k, min_shape=[rng.randrange(4, 9)], depth=depth, window=rng.choice([3, 3, 5]), splits=2,
+              r_min=rng.choice([0.5, 1.0, 0.1]), r_max=rng.choice([20.0, 50.0, 8.0]))
+    if k == "brokenlog":
+        sp["r_linthresh"] = rng.choice([2.0, 4.0, 1.5])
+    return sp
+
+
 def gen_win(rng, spec, nd_axes):
     wins = []
     for a in nd_axes:
@@ -541,6 +589,9 @@ FIXED = [
     dict(kind="flat", ordering="nest", grid=dict(kind="regular", shape0=[3, 2], splits=[[2, 3], [2, 2], [1, 2]])),
     dict(kind="flat", ordering="serial", grid=dict(kind="open", shape0=[5, 7], splits=[[2, 3], [2, 2]], padding=[[1, 2], [1, 1]])),
     dict(kind="flat", ordering="nest", grid=dict(kind="hp", nside0=1, depth=2)),
+    dict(kind="simpleopen", min_shape=[5, 4], depth=2, window=3, splits=2, distances=None),
+    dict(kind="log", min_shape=[6], depth=2, window=3, splits=2, r_min=0.5, r_max=20.0),
+    dict(kind="brokenlog", min_shape=[6], depth=1, window=3, splits=2, r_min=0.5, r_linthresh=2.0, r_max=20.0),
 ]
 
 
@@ -564,6 +615,12 @@ def plan_specs(ctx, specs):
                         note="C31 real grid constructor raised on a valid specification")
             continue
         j.igrid = j.grid.grid if spec["kind"] == "flat" else j.grid
+        if spec["kind"] in PHYS_KINDS:
+            j.inner = derive_open(spec, j.grid)
+            if spec["kind"] == "log":
+                j.inner["_offset"] = float(np.log(spec["r_min"]))
+                j.inner["_scale"] = float(np.log(spec["r_max"]) - np.log(spec["r_min"]))
+            j.lvs = [j.inner]
         j.at_slices = []
         for lf in j.lvs:
             rq = at_requests(lf)
@@ -585,7 +642,10 @@ def check_ats(ctx, j):
             ga = sg.at(l)
             real = dict(shape=[int(x) for x in ga.shape],
                         shifts=[int(x) for x in ga.shifts] if hasattr(ga, "shifts") else [0] * len(lf["shape0"]))
-            ctx.compare(dict(spec=lf, level=l, what="at"), real, j.ats[li][l], note="C31 Grid.at: shape / shifts",
+            mod = j.ats[li][l]
+            if lf.get("phys"):       # physical shifts are real numbers (checked through the coordinates): compare shapes
+                real, mod = dict(shape=real["shape"]), dict(shape=mod.get("shape"))
+            ctx.compare(dict(spec=lf, level=l, what="at"), real, mod, note="C31 Grid.at: shape / shifts",
                         nontrivial=l > 0)
 
 
@@ -596,6 +656,10 @@ def level_requests(j, win_rng):
         ax = []
         for li, lf in enumerate(j.lvs):
             ax += leaf_axes(lf, l, j.ats[li])
+        if j.inner.get("phys"):
+            ga = j.igrid.at(l)
+            for k_, a in enumerate(ax):
+                a["csh"], a["cdist"] = _fs(ga.shifts[k_]), _fs(ga.distances[k_])
         j.axes.append(ax)
     j.win = gen_win(win_rng, spec, j.axes[0])
     reqs = []
